@@ -253,7 +253,7 @@ func (e *engine) run(r root, prefix []string) witness {
 	for i := range steps {
 		s := &steps[i]
 		switch s.Outcome {
-		case oBogusEvt, oBogusTrig:
+		case oBogusEvt, oBogusTrig, oBogusOk:
 			hasBogus = true
 		case oRejected:
 			c.Count("requests_rejected_src_mismatch", 1)
